@@ -656,10 +656,11 @@ def formatPieces (allowed : Nat) : List Char :=
 /-! ### producers; trap lines for any bare condition name -/
 
 /-- the source files whose printers `Quote/Listing.lean` transcribes (`printAlias`, `printSet`, `printTrap`,
-    `printVar`, `printFnAttr`) -/
+    `printVar`, `printFnAttr`, `printCommandV`) -/
 def modelledPrinters : List String :=
   ["yash-builtin/src/alias/semantics.rs", "yash-builtin/src/set.rs", "yash-builtin/src/trap.rs",
-   "yash-builtin/src/typeset/print_variables.rs", "yash-builtin/src/typeset/print_functions.rs"]
+   "yash-builtin/src/typeset/print_variables.rs", "yash-builtin/src/typeset/print_functions.rs",
+   "yash-builtin/src/command/identify.rs"]
 
 /-- `trap_line_effects` for ANY condition whose name is printed bare -/
 theorem trap_line_effects_gen (t : String × List Char) (hq1 : quote t.1.toList = t.1.toList) (rest : List Char) :
@@ -697,5 +698,39 @@ theorem trap_line_effects_gen (t : String × List Char) (hq1 : quote t.1.toList 
   exact this
 
 theorem signal_names_bare : ∀ p ∈ virtualSignals, quote p.1.toList = p.1.toList := by decide
+
+/-! ### `command -v`: the line `alias name=value` without `--` -/
+
+theorem evalCmd_alias1 (w : List Char) (h : w.head? ≠ some '-') :
+    evalCmd ⟨[], "alias".toList :: [w]⟩ = (splitEq w).map fun p => [Effect.alias p.1 p.2] := by
+  have : evalCmd ⟨[], "alias".toList :: [w]⟩
+      = if w.head? = some '-' then none else (splitEq w).map fun p => [Effect.alias p.1 p.2] := rfl
+  rw [this, if_neg h]
+
+/-- the line `alias <quoted name>=<quoted value>` (no `--`) in front of any text -/
+theorem alias_line_effects_nodash (n v rest : List Char) (hn : '=' ∉ n) (hd : n.head? ≠ some '-')
+    (h : crossBracket n v = false) :
+    evalScript ("alias ".toList ++ printAlias (n, v) ++ rest)
+      = (evalScript rest).map ([Effect.alias n v] ++ ·) := by
+  have hargs : readBack (quote n ++ '=' :: quote v) = some [n ++ '=' :: v] := alias_entry_reparse n v h
+  have hl : (quote n ++ '=' :: quote v).getLast? ≠ some '\\' := by
+    rw [show quote n ++ '=' :: quote v = (quote n ++ ['=']) ++ quote v by simp]
+    exact getLast_append_quote _ _
+  have hh : (n ++ '=' :: v).head? ≠ some '-' := by
+    cases n with
+    | nil => simp
+    | cons c t => simpa using hd
+  have hev : evalCmd ⟨[], "alias".toList :: [n ++ '=' :: v]⟩ = some [Effect.alias n v] := by
+    rw [evalCmd_alias1 _ hh, splitEq_append n v hn]; rfl
+  have := evalScript_util_line "alias".toList alias_util.1 alias_util.2.1 alias_util.2.2.1 false
+    alias_util.2.2.2 _ _ (by rw [if_neg (by decide)]; exact hargs) hl _ hev rest
+  have e : "alias ".toList ++ printAlias (n, v) ++ rest
+      = "alias".toList ++ ' ' :: ((quote n ++ '=' :: quote v) ++ '\n' :: rest) := by
+    have h3 : "alias ".toList = "alias".toList ++ [' '] := by decide
+    show "alias ".toList ++ (quote n ++ ['='] ++ quote v ++ ['\n']) ++ rest = _
+    rw [h3]
+    simp only [List.append_assoc, List.cons_append, List.nil_append]
+  rw [e]
+  exact this
 
 end YashModel.Quote
